@@ -162,6 +162,7 @@ inductive Outcome
   | zero                            -- timer function: zero time
   | zeroErr                         -- timer function: zero time and an error
   | ok                              -- hook / custom delete: success
+  | lost (k : Int)                  -- hook / custom delete: the process loses its role while the function runs; the function fails with error k
   | exhausted                       -- no outcome left: behaves as an error
 deriving Repr, Inhabited, DecidableEq
 
@@ -175,12 +176,14 @@ def Outcome.str : Outcome → String
   | .zero => "z"
   | .zeroErr => "ze"
   | .ok => "k"
+  | .lost k => s!"l:{k}"
   | .exhausted => "x"
 
 structure Env where
   faults : List (Nat × FaultKind) := []
   outcomes : List Outcome := []
   stale : Nat := 0
+  ackIgn : Bool := false  -- the streamer acknowledges even under a cancelled context (as the in-memory streamer does)
 deriving Repr, Inhabited
 
 inductive Abort
@@ -280,7 +283,16 @@ def store (cfg : Cfg) (r : Rec) : M Unit :=
     let r' := if cfg.stamp then { r with updatedAt := s.now } else r
     ("(" ++ recStr r' ++ ")", .ok (), s.write cfg r))
 
-def ack (p : Proc) (i : Nat) : M Unit := call s!"ack(e{i})" (fun s => ("", .ok (), s.setCursor p (i + 1)))
+/-- the lease context is cancelled from outside while a user function runs (role lost mid-function) -/
+def loseLease : M Unit := fun _ st => (.ok (), { st with cancelled := !st.isApi })
+
+/-- `ack`: an adapter call; a streamer whose acknowledgement does not look at the context (`env.ackIgn`) performs it
+even after the lease context has been cancelled -/
+def ack (p : Proc) (i : Nat) : M Unit := fun env st =>
+  if env.ackIgn && st.cancelled then
+    let r := call s!"ack(e{i})" (fun s => ("", .ok (), s.setCursor p (i + 1))) env { st with cancelled := false }
+    (r.1, { r.2 with cancelled := true })
+  else call s!"ack(e{i})" (fun s => ("", .ok (), s.setCursor p (i + 1))) env st
 
 /-! ## the write paths (update.go, runstate.go, trigger.go, delete.go) -/
 
@@ -504,6 +516,7 @@ def hookHandle (_cfg : Cfg) (rs : RunState) (e : Event) : M Unit := do
       emit s!"fn:hook{rs}({recStr record})->{out.str}"
       match out with
       | .err k => throwA (.err k)
+      | .lost k => do loseLease; throwA (.err k)
       | .exhausted => throwA (.err 98)
       | _ => pure ()
 
@@ -518,6 +531,7 @@ def customDeleteFn (record : Rec) : M Obj :=
     emit s!"fn:delete(o{record.obj})->{out.str}"
     match out with
     | .err k => throwA (.err k)
+    | .lost k => do loseLease; throwA (.err k)
     | .exhausted => throwA (.err 98)
     | _ => pure (scrub record.obj)
 
